@@ -27,6 +27,14 @@ pub fn zoo_roundtrip<M: ZooMsg + ?Sized>(n: u32) -> Result<(), String> {
         match r {
             Ok(Ok((back, size))) => {
                 if back != v {
+                    // does the result depend on what the buffer held before?  (then it is the
+                    // library, not the adapter: the same emplacement is right over zeros)
+                    let mut clean = AlignedBytes::new(8192, M::ALIGN.max(16));
+                    clean.fill(0);
+                    let again = guarded(|| M::emplace_val(&mut clean, &v).map(|m| m.read()));
+                    if matches!(&again, Ok(Ok(b2)) if b2 == &v) {
+                        return Err(format!("STALE:emplace|emplacing {} over a buffer pre-filled with 0xFF reads back {}, over zeros it reads back correctly: the value depends on the previous contents of the (reused) buffer", v.short(), back.short()));
+                    }
                     return Err(format!("round trip changed the value: {:?} -> {:?}", v, back));
                 }
                 if size > buf.len() {
